@@ -488,7 +488,7 @@ def bypass_guard(b, tm, w, oks):
 
 
 SINK_CALLS = ("std::io::Write::write_all", "std::io::Write::flush", "std::io::Write::write")
-AFTER_FAIL_OK = ("FromResidual::from_residual", "Drop::drop", "From::from", "Into::into", "drop_in_place")
+AFTER_FAIL_OK = ("FromResidual::from_residual", "Try::branch", "Drop::drop", "From::from", "Into::into", "drop_in_place")
 
 
 def rule_r4(facts):
